@@ -69,6 +69,7 @@ fn main() {
     let mut n_random: Option<usize> = None;
     let mut steps: Option<usize> = None;
     let mut pipe: Option<String> = None;
+    let mut ops_file: Option<String> = None;
     let mut i = 1;
     while i < args.len() {
         match args[i].as_str() {
@@ -104,12 +105,53 @@ fn main() {
                 pipe = Some(args[i + 1].clone());
                 i += 1
             }
+            "--ops-file" => {
+                ops_file = Some(args[i + 1].clone());
+                i += 1
+            }
             a => panic!("unknown argument {a}"),
         }
         i += 1;
     }
     let thorough = tier == "thorough";
     let p = Params { thorough, seed, steps: steps.unwrap_or(if thorough { 60 } else { 40 }) };
+
+    if let Some(f) = ops_file {
+        // re-execute an explicit op list: first line `cfg=…` (world), then one line per operation:
+        // `STEP <op>` / `PROBE <op>` / `STEPF <k> <op>` (anything after the op on a line is ignored),
+        // `DRAINCHECK` (the drain battery), `QUERIES` (the query battery). Trace to stdout.
+        let text = std::fs::read_to_string(&f).expect("read ops file");
+        let mut lines = text.lines().filter(|l| !l.trim().is_empty());
+        let cfg = lines.next().and_then(|l| fzharness::gen::cfg_from_token(l.trim())).expect("first line must be a cfg= token");
+        let stdout = std::io::stdout();
+        let mut w = BufWriter::new(stdout.lock());
+        let mut g = Gen::start(fzharness::world::Sim::new(cfg), "replay:0", p.seed, &mut w, p.thorough);
+        for l in lines {
+            let l = l.trim();
+            let (kind, rest) = l.split_once(' ').unwrap_or((l, ""));
+            match kind {
+                "STEP" | "PROBE" => {
+                    let op = fzharness::parse::parse_op(&g.h.sim, rest).unwrap_or_else(|e| panic!("cannot parse {l:?}: {e}"));
+                    if kind == "STEP" {
+                        g.step(&op);
+                    } else {
+                        g.probe(&op);
+                    }
+                }
+                "STEPF" => {
+                    let (k, rest) = rest.split_once(' ').expect("STEPF k op");
+                    let op = fzharness::parse::parse_op(&g.h.sim, rest).unwrap_or_else(|e| panic!("cannot parse {l:?}: {e}"));
+                    g.stepf(k.parse().expect("k"), &op);
+                }
+                "DRAINCHECK" => g.battery_drain(),
+                "QUERIES" => g.battery_queries(),
+                other => panic!("unknown ops-file line kind {other:?}"),
+            }
+        }
+        drop(g);
+        w.flush().unwrap();
+        return;
+    }
 
     if let Some(o) = only {
         let (fam, idx) = o.split_once(':').expect("--only family:index");
